@@ -39,3 +39,15 @@ Definition c11_kinds (d : sdump) : list nat :=
   (match d_live d with [] => if is_fresh d then [] else [7%nat] | _ => [] end).
 
 Definition c11_eval (h : hcase) : nat := bits (corr_ok h) (c11_final (h_final h)).
+
+(* Histories in which handler tasks overlap with the following operations (async_handlers=True,
+   harness/drivers/async_tasks.py).  The sequential model has no operation for them; only the state
+   dumps taken when the server is quiescent (no task runnable; the last one is the final state) are
+   observed, and each of them must satisfy the final-state clause c11_final. *)
+Record qcase := mkQ { q_dumps : list sdump }.
+Definition c11q_ok (q : qcase) : bool := forallb c11_final (q_dumps q).
+Definition kinds_mask (ks : list nat) : nat := fold_right (fun k acc => Nat.pow 2 k + acc)%nat 0%nat (nodup Nat.eq_dec ks).
+(* 0 = fine; otherwise bit 2 (property) and, from bit 3 on, the kinds of residue (c11_kinds) over all dumps *)
+Definition c11q_eval (q : qcase) : nat :=
+  if c11q_ok q then 0%nat
+  else (2 + 2 * kinds_mask (flat_map c11_kinds (filter (fun d => negb (c11_final d)) (q_dumps q))))%nat.
